@@ -1,4 +1,4 @@
-HOOK_COMMITS = ["a2e3426"]
+HOOK_COMMITS = ["a2e3426"]  # /repo: verif_export.go
 NOTE_ASYNC = ("Trusted base: the harness value types (ideal MAC signatures, loss-free payloads), the Byzantine grammar and scheduler profiles in harness/sim, "
               "rapid v1.3.0 as the generator/shrinker, and the reading of the application contract (Start once, Reset after the ledger advanced). Search, not proof: absence of a counterexample within the generated shapes.")
 META = {
@@ -13,4 +13,16 @@ META = {
  "C10": {"text": "After every API call on an undecided validator the virtual timer must be pending for exactly (height, view) with a non-negative duration; a consumed timeout must re-arm it.",
          "design_ref": "DESIGN.md 4/C10", "note": NOTE_ASYNC, "technique": "stateful property-based testing (rapid) with an injected virtual timer; post-call invariant"},
 }
+META.update({
+ "C05": {"text": "Multi-height runs with delayed Reset, ledger sync, changing validator lists and cross-height traffic; oracle: <=1 accepted block per height and node, whole-state fingerprint unchanged by any call between acceptance and Reset (only recovery replies allowed), and a field-by-field audit of the state right after Reset/Start incl. the unexported cache (verif accessor).",
+         "design_ref": "DESIGN.md 4/C05", "note": NOTE_ASYNC + " The fingerprint and the cache audit rely on the add-only `verif` accessors.", "technique": "stateful property-based testing (rapid); state-audit and quiescence oracles"},
+ "C07": {"text": "Per-node order of PreCommit broadcast, ProcessPreBlock success, NewBlockFromContext, Block.Sign and Commit broadcast is checked at every callback; below the enabling height any pre-commit activity is a violation and delivered pre-commits must leave the fingerprint unchanged.",
+         "design_ref": "DESIGN.md 4/C07", "note": NOTE_ASYNC, "technique": "stateful property-based testing (rapid); callback-order oracle"},
+ "C11": {"text": "Random reachable states x one input of each inadmissible class (or re-delivery of a stored payload): whole-state fingerprint, broadcast count and callback count must not change; all calls of all worlds run under panic capture. Thorough adds native coverage-guided fuzzing of the same driver.",
+         "design_ref": "DESIGN.md 4/C11", "note": NOTE_ASYNC + " Inadmissible = decidable at delivery time as listed in the property; future-view pre-commits with anti-MEV off are not asserted.", "technique": "property-based testing (rapid) with differential state fingerprint; native go fuzzing in the thorough tier"},
+ "C12": {"text": "Obligation tracking per node: the hashes passed to RequestTx for the stored proposal; once the harness has supplied all of them while the preconditions of the property held, a PrepareResponse naming the proposal or a ChangeView must have been broadcast by the return of the last OnTransaction.",
+         "design_ref": "DESIGN.md 4/C12", "note": NOTE_ASYNC, "technique": "stateful property-based testing (rapid); obligation/answer oracle"},
+ "C13": {"text": "Zero Broadcast / Block.Sign / PreBlock.SetData events on any node that is outside the validator list or carries the watch-only flag, in every state the adversarial driver reaches, incl. being primary at Start and after Reset.",
+         "design_ref": "DESIGN.md 4/C13", "note": NOTE_ASYNC, "technique": "stateful property-based testing (rapid); silence oracle on instrumented callbacks"},
+})
 NOT_APPLICABLE = []
